@@ -233,8 +233,11 @@ func NativeToOvs(column *ColumnSchema, rawElem interface{}) (interface{}, error)
 	}
 
 	switch column.Type {
-	case TypeInteger, TypeReal, TypeString, TypeBoolean, TypeEnum:
+	case TypeInteger, TypeReal, TypeString, TypeBoolean:
 		return rawElem, nil
+	case TypeEnum:
+		// an enum may be of any atomic type, uuid included
+		return NativeToOvsAtomic(column.TypeObj.Key.Type, rawElem)
 	case TypeUUID:
 		return UUID{GoUUID: rawElem.(string)}, nil
 	case TypeSet:
